@@ -226,6 +226,12 @@ def registry(darsia):
     add("wasserstein_newton_weight_extreme", lambda P, r: darsia.wasserstein_distance(P["Ma"], P["Mb"], method="newton", weight=P["Wextreme"], options={"num_iter": 2}))
     add("wasserstein_bregman_weight_extreme", lambda P, r: darsia.wasserstein_distance(P["Ma"], P["Mb"], method="bregman", weight=P["Wextreme"], options={"num_iter": 2}))
     add("wasserstein_caller_options", lambda P, r: darsia.wasserstein_distance(P["Ma"], P["Mb"], method="newton", options=P["optsW"]))
+    # calls the library rejects part-way (the AMG hierarchy cannot be set up with these options): arguments and the global
+    # random state are as they were after the exception too
+    for meth_ in ("newton", "bregman"):
+        for bad_amg in ({"max_coarse": 4, "strength": "not-a-strength-measure"}, {"max_coarse": 2, "smooth": "no-such-smoother"}, {"max_coarse": 3, "aggregate": "no-such-aggregation"}):
+            add(f"wasserstein_rejected_{meth_}_{sorted(set(bad_amg) - {'max_coarse'})[0]}",
+                lambda P, r, meth_=meth_, bad_amg=bad_amg: darsia.wasserstein_distance(P["Ma"], P["Mb"], method=meth_, options=dict(P["optsW"], amg_options=dict(bad_amg))))
     add("wasserstein_caller_options_bregman", lambda P, r: darsia.wasserstein_distance(P["Ma"], P["Mb"], method="bregman", options=P["optsW"]))
     add("emd_distinct", lambda P, r: darsia.EMD()(P["Ma"], P["Mb"]))
     add("superpose_caller_list", lambda P, r: darsia.superpose(P["imglist"]))
@@ -280,7 +286,7 @@ def run_chain(darsia, rng, tid, forms, R, adopt=None):
         pre = {k: digest(v) for k, v in live.items()}
         r0 = rng_digest()
         expect = ARITH[name](P) if name in ARITH else None
-        e = {"tid": tid, "i": i, "form": name, "mut": mut, "raised": 0, "arith_ok": 1, "rng_same": 1}
+        e = {"tid": tid, "i": i, "form": name, "mut": mut, "raised": 0, "arith_ok": 1, "rng_same": 1, "rejects": int(name.startswith("wasserstein_rejected_"))}
         try:
             with warnings.catch_warnings(), contextlib.redirect_stdout(io.StringIO()):
                 warnings.simplefilter("ignore")
